@@ -329,7 +329,7 @@ func configs() map[string]seqx.Config {
 	// long fill: a single seq family, no resize, deep (ring wrap many times)
 	list = append(list, c{"seq/fill-cap3", alphabet{
 		seqs: []uint16{65534, 65535, 0, 1, 2}, nvar: 4, caps: nil, init: 3, getAt: true,
-	}, core.Pick(6, 8)})
+	}, core.Pick(5, 8)})
 	list = append(list, c{"seq/cap65535", alphabet{
 		seqs: []uint16{0, 65535}, nvar: 2, caps: []int{65534, 2}, init: 65535, cond: true, getAt: true,
 	}, core.Pick(3, 4)})
